@@ -87,6 +87,12 @@ PROPS = {
         thorough=[mc('mc_gc', 'all', 'sc', P=2, E=1, budget=1500), mc('mc_gc', '0,1,3,4', 'sc', P=3, E=0, budget=900), mc('mc_gc', '0,1', 'tso', P=2, D=1, budget=600)],
         oracle='per reclaimer: invoked exactly once when stop()/the destructor returned, never while a region that was open at its retirement is still open, never destroyed uninvoked; retire blocks on a full queue and resumes (deadlock detector)',
     ),
+    'C15': dict(
+        title='transient topic: each subscriber sees every item once, in order, then the end',
+        quick=[mc('mc_topic', 'all', 'sc', P=2, E=0, budget=100), mc('mc_topic', '0,1,3,4,6,7', 'tso', P=2, D=1, E=1, budget=120), mc('mc_topic', '2,5', 'tso', P=1, D=1, E=0, budget=120)],
+        thorough=[mc('mc_topic', 'all', 'sc', P=3, E=1, budget=900), mc('mc_topic', '0,1,3,4,6,7', 'tso', P=3, D=2, E=1, budget=1500), mc('mc_topic', '2,5', 'tso', P=2, D=1, E=1, budget=900)],
+        oracle='every consumer receives exactly the published items in publication-index order (per-publisher order for concurrent publishers), payload complete (checksum + HB race detector on the slot values), blocks instead of returning short before close, end marker after close, no lost wake-up (deadlock detector), same again after clear()',
+    ),
 }
 
 SEQX_ASSUMPTIONS = [
